@@ -53,8 +53,13 @@ type Violation struct {
 	Detail string                 `json:"detail"` // human readable
 }
 
+// lastReport and lastInput let a watchdog deep inside a helper end the run with a proper report
+var lastReport *Report
+var lastInput map[string]interface{}
+
 func NewReport(cmd string) *Report {
-	return &Report{Command: cmd, Stats: map[string]int{}, Violations: []Violation{}, Samples: []interface{}{}, Extra: map[string]interface{}{}}
+	lastReport = &Report{Command: cmd, Stats: map[string]int{}, Violations: []Violation{}, Samples: []interface{}{}, Extra: map[string]interface{}{}}
+	return lastReport
 }
 
 const maxViolations = 25
@@ -102,6 +107,7 @@ func die(err error) {
 // VERIF_CURRENT): when an engine goroutine panics the process dies, and the driver reports this
 // input as the failing one.
 func setCurrent(in map[string]interface{}) {
+	lastInput = in
 	path := os.Getenv("VERIF_CURRENT")
 	if path == "" {
 		return
